@@ -800,6 +800,10 @@ def tree_name_to_values(inference_state, context, tree_name):
         types = NO_VALUES
     elif typ == 'namedexpr_test':
         types = infer_node(context, node)
+    elif typ == 'error_node':
+        # `except X as name` of a try statement that is still being typed:
+        # parso gives the parent of the except clause as the definition.
+        types = NO_VALUES
     else:
         raise ValueError("Should not happen. type: %s" % typ)
     return types
